@@ -77,19 +77,21 @@ def _again(rng, gd, g, res, call):
         pass
 
 
-def run_case(ctx, gd, rng, i):
+def run_case(ctx, gd, rng, i, core=None, cards=None):
     from y0.algorithm.counterfactual_transport.ancestor_utils import (get_ancestors_of_counterfactual,
                                                                        get_ancestral_components, minimize_counterfactual)
     from y0.algorithm.counterfactual_transport.api import do_counterfactual_factor_factorization, simplify
 
     g = gg.to_nx(gd)
-    gk = gg.key(gd)
+    gk = gg.key(gd)[:300]
     op = i % 5
     c = kernel.LOG.counters
+    src = core or gd  # variables and events are drawn from the core of a wide graph (its padding nodes are constants)
+    extra = {"cards": cards} if cards else {}
     if op in (0, 1):
-        (name, world), cls = random_cfvar(rng, gd)
+        (name, world), cls = random_cfvar(rng, src)
         var = gev.var_of([name, world, None])
-        kernel.LOG.reset_case({"graph": gd, "variable": [name, world, None], "op": "minimize" if op == 0 else "ancestors"})
+        kernel.LOG.reset_case({"graph": gd, "variable": [name, world, None], "op": "minimize" if op == 0 else "ancestors", **extra})
         n0 = c.get("C19:minimize:subscripts-dropped", 0)
         res = None
         try:
@@ -105,12 +107,12 @@ def run_case(ctx, gd, rng, i):
                  sample={"op": "minimize" if op == 0 else "ancestors", "graph": gd, "variable": str(var), "class": cls,
                          "result": shown})
     elif op == 2:
-        ev, cls = gev.random_event(rng, gd, max_items=4)
+        ev, cls = gev.random_event(rng, src, max_items=4)
         if not ev:
             return
         if rng.random() < 0.15:
             ev = [[c0, w, None] if rng.random() < 0.3 else [c0, w, v] for c0, w, v in ev]
-        kernel.LOG.reset_case({"graph": gd, "event": ev, "op": "simplify"})
+        kernel.LOG.reset_case({"graph": gd, "event": ev, "op": "simplify", **extra})
         n0 = c.get("C19:simplify:conjuncts-removed", 0)
         res = "!"
         try:
@@ -126,16 +128,16 @@ def run_case(ctx, gd, rng, i):
     elif op == 3:
         roots = []
         for _ in range(rng.randint(1, 3)):
-            roots.append(random_cfvar(rng, gd, rng.choice(["none", "relevant", "relevant", "mixed"]))[0])
+            roots.append(random_cfvar(rng, src, rng.choice(["none", "relevant", "relevant", "mixed"]))[0])
         cond = []
         for _ in range(rng.randint(0, 2)):
-            cv = random_cfvar(rng, gd, rng.choice(["none", "relevant", "irrelevant"]))[0]
+            cv = random_cfvar(rng, src, rng.choice(["none", "relevant", "irrelevant"]))[0]
             cond.append(cv)
             if rng.random() < 0.6:
                 roots.append(cv)  # conditioned variables are part of W* in Definition 4.2
         roots = [list(x) for x in {(r[0], tuple(map(tuple, r[1]))) for r in roots}]
         roots = [[r[0], [list(w) for w in r[1]]] for r in roots]
-        kernel.LOG.reset_case({"graph": gd, "conditioned": cond, "roots": roots, "op": "components"})
+        kernel.LOG.reset_case({"graph": gd, "conditioned": cond, "roots": roots, "op": "components", **extra})
         n0 = c.get("C19:components:merged-sets", 0)
         res = None
         try:
@@ -147,10 +149,10 @@ def run_case(ctx, gd, rng, i):
                  sample={"op": "components", "graph": gd, "conditioned": cond, "roots": roots,
                          "result": sorted(sorted(map(str, s)) for s in res) if res is not None else None})
     else:
-        ev, cls = gev.random_event(rng, gd, max_items=3)
+        ev, cls = gev.random_event(rng, src, max_items=3)
         if not ev or cls == "contradictory_pair":
             return
-        kernel.LOG.reset_case({"graph": gd, "event": ev, "op": "factorization"})
+        kernel.LOG.reset_case({"graph": gd, "event": ev, "op": "factorization", **extra})
         n0 = c.get("C19:factorization:with-two-or-more-factors", 0)
         res = None
         try:
@@ -173,6 +175,12 @@ def run_shard(ctx):
         n = rng.choice([2, 3, 4, 4, 5] if i % 5 != 4 else [2, 3, 3, 4, 4])
         gd = gg.random_admg(rng, n, hostile=rng.choice(gg.HOSTILE + ("isolated", "bichain")))
         run_case(ctx, gd, rng, i)
+    # wide graphs: variables and events on a small core, 10..14 (sometimes 64) nodes in the graph
+    for i in range(ctx.share({"quick": 3000, "thorough": 30000}[ctx.tier])):
+        core = gg.random_admg(rng, rng.choice([2, 3, 3, 4]), hostile=rng.choice(gg.HOSTILE + ("isolated", "bichain")))
+        total = 64 if i % 15 == 0 else rng.randint(10, 14)
+        gd, pad = gg.embed_wide(core, rng, total, **({"p_di": 0.02, "p_bi": 0.01} if total == 64 else {}))
+        run_case(ctx, gd, rng, i, core=core, cards={w: 1 for w in pad})
 
 
 def replay(case):
